@@ -101,12 +101,26 @@ def all_v_files():
     return sorted(res)
 
 
-def forbidden_scan():
-    """grep the whole development (comments stripped) for commands that would
+def cone(vfile, acc=None):
+    """transitive SWH.* dependencies of a .v file (paths relative to coq/), including itself"""
+    acc = acc if acc is not None else []
+    if vfile in acc:
+        return acc
+    acc.append(vfile)
+    if os.path.exists(os.path.join(COQ, vfile)):
+        for t in require_targets(vfile):
+            cone(t[:-1], acc)
+    return acc
+
+
+def forbidden_scan(files):
+    """grep the property's development cone (comments stripped) for commands that would
     declare an axiom or switch off a kernel check; Variable/Hypothesis/Context
     are allowed inside sections only."""
     bad = []
-    for f in all_v_files():
+    for f in files:
+        if not os.path.exists(os.path.join(COQ, f)):
+            continue
         src = strip_comments(open(os.path.join(COQ, f), encoding="utf-8").read())
         # string literals may legitimately contain words; drop them
         src_ns = re.sub(r'"[^"]*"', '""', src)
@@ -167,7 +181,7 @@ def build_proofs(P, tier):
             res["errors"].append(f"theorem:{t} is not stated in {props}")
         elif t not in printed:
             res["errors"].append(f"theorem:{t} has no Print Assumptions in {props}")
-    bad = forbidden_scan()
+    bad = forbidden_scan(cone(props) + cone(P.EXTRACT))
     res["errors"] += ["forbidden:" + b for b in bad]
     with BuildLock():
         ensure_makefile()
@@ -242,10 +256,9 @@ def build_driver(P):
         stamp = os.path.join(bdir, "stamp")
         h = hashlib.sha256()
         # the extracted code depends on the whole model cone: hash every model/lib file + Generated.v
-        for d, _, fs in os.walk(COQ):
-            for f in sorted(fs):
-                if f.endswith(".v") and ("/proofs" not in d and "/Props" not in d):
-                    h.update(open(os.path.join(d, f), "rb").read())
+        for f in sorted(cone(P.EXTRACT)):
+            if os.path.exists(os.path.join(COQ, f)):
+                h.update(open(os.path.join(COQ, f), "rb").read())
         for f in ocaml_srcs:
             h.update(open(f, "rb").read())
         digest = h.hexdigest()
